@@ -95,7 +95,7 @@ def stress_history(rnd, label):
 
 def stress(ctx, rnd):
     """compare-only: recorded executions of the serial build against repeated runs of the OpenMP build"""
-    n = 32 if ctx.quick else 200
+    n = 32 if ctx.quick else 80
     reps = 3 if ctx.quick else 6
     scens = [stress_history(rnd, "s%d" % i) for i in range(n)]
     env0 = {"VERIF_MAX_POINTS": "20000", "VERIF_NO_FORK": "1"}
@@ -119,7 +119,7 @@ def stress(ctx, rnd):
 def run(ctx):
     rnd = random.Random(ctx.seed + 1313)
     omp_region_mc(ctx)
-    n = 120 if ctx.quick else 1500
+    n = 120 if ctx.quick else 500
     scens = [gl.history(rnd, "o%d" % i, steps=rnd.randint(4, 8), with_construct=True, with_transform=True) for i in range(n)]
     mask = gl.OBS_NODAL | OBS_NUM
     ref = {}
